@@ -39,6 +39,25 @@ func (db *DB) Put(ctx context.Context, mode storage.ModePut, chs ...boson.Chunk)
 	db.metrics.ModePut.Inc()
 	defer totalTimeMetric(db.metrics.TotalTimePut, time.Now())
 
+	if len(chs) > 1 {
+		// The index reads in put (pin counter, gc entry and data entry of
+		// the file root, duplicates) do not see what is still pending in
+		// the write batch, so chunks put in one call would not be handled
+		// like the same chunks put one by one: a request put of a file
+		// root together with its chunks fails, and a pinning put that
+		// names a chunk twice pins it once. Store them one at a time.
+		exist = make([]bool, 0, len(chs))
+		for _, ch := range chs {
+			e, err := db.put(mode, rootHash, ch)
+			if err != nil {
+				db.metrics.ModePutFailure.Inc()
+				return nil, err
+			}
+			exist = append(exist, e...)
+		}
+		return exist, nil
+	}
+
 	exist, err = db.put(mode, rootHash, chs...)
 	if err != nil {
 		db.metrics.ModePutFailure.Inc()
